@@ -12,8 +12,9 @@ Every `theorem` below is an obligation of the check.  Quantification is over *al
 nesting and sizes; proofs are by mutual structural induction on `G` / `List G`) and *all* writer
 configurations.  Hypotheses:
 
-* `WFG`   — the invariants the thirteen geometry constructors enforce (what every `Geometry` object
-            satisfies),
+* `WFG arc` — the invariants the thirteen geometry constructors enforce (what every `Geometry` object
+            satisfies); `arc` is the oracle for the one check that is floating-point arithmetic (the
+            circular-string envelope computation) and every theorem holds for every oracle,
 * `Fits`  — element counts fit the 32-bit count word, and no compound-curve section is empty
             (see `compound_empty_section_unreadable`: without it the statement is false of the code),
 * `sridFits` — the SRID is a C `int`.
@@ -36,9 +37,14 @@ namespace GeosModel.C09
 open GeosModel GeosModel.WKB
 
 /-- the hypotheses of the round-trip theorems -/
-def Valid (g : Geom) : Prop := WFG g.g = true ∧ Fits g.g = true ∧ sridFits g.srid = true
+def Valid (arc : ArcOracle) (g : Geom) : Prop := WFG arc g.g = true ∧ Fits g.g = true ∧ sridFits g.srid = true
 
-instance (g : Geom) : Decidable (Valid g) := by unfold Valid; infer_instance
+instance (arc : ArcOracle) (g : Geom) : Decidable (Valid arc g) := by unfold Valid; infer_instance
+
+/-- Everything below holds for *every* arc oracle (see `ArcOracle`: which coordinate values make the
+`CircularString` constructor's envelope computation throw is floating-point arithmetic of the library; the
+theorems only use that it is a function of the X/Y bit patterns, which the round trip preserves). -/
+example : ArcOracle := fun _ => false
 
 /-! ## positive results -/
 
@@ -47,46 +53,48 @@ succeeds and returns `canon c g`: SRID kept iff extended flavour with `includeSR
 linear-ring object is a line string; a point with NaN X and Y is the empty point; every sequence
 carries the Z/M flags of the unit it was written in (its own, or — for polygon rings and
 compound-curve sections — the union over its parent), cut down to the output dimension. -/
-theorem read_write_canon (c : Cfg) (g : Geom) (h : Valid g) : read (write c g) = .ok (canon c g) :=
+theorem read_write_canon (arc : ArcOracle) (c : Cfg) (g : Geom) (h : Valid arc g) :
+    read arc (write c g) = .ok (canon c g) :=
   read_write c g h.1 h.2.1 h.2.2
 
 /-- **Four output dimensions**, both byte orders, both flavours, SRID on/off. -/
-theorem read_write_id (o : Order) (f : Flavor) (s : Bool) (g : Geom) (h : Valid g) :
-    read (write ⟨4, o, f, s⟩ g) = .ok (canon ⟨4, o, f, s⟩ g) :=
-  read_write_canon _ g h
+theorem read_write_id (arc : ArcOracle) (o : Order) (f : Flavor) (s : Bool) (g : Geom) (h : Valid arc g) :
+    read arc (write ⟨4, o, f, s⟩ g) = .ok (canon ⟨4, o, f, s⟩ g) :=
+  read_write_canon arc _ g h
 
 /-- **Lower output dimension** = the four-dimensional result with exactly the excess ordinates of every
 sequence dropped (M first, then Z), for *every* `d` (the writer admits 2, 3, 4). -/
-theorem read_write_lowdim (d : Nat) (o : Order) (f : Flavor) (s : Bool) (g : Geom) (h : Valid g) :
-    read (write ⟨d, o, f, s⟩ g) = .ok (dropDims d (canon ⟨4, o, f, s⟩ g)) := by
-  rw [read_write_canon _ g h]
+theorem read_write_lowdim (arc : ArcOracle) (d : Nat) (o : Order) (f : Flavor) (s : Bool) (g : Geom)
+    (h : Valid arc g) :
+    read arc (write ⟨d, o, f, s⟩ g) = .ok (dropDims d (canon ⟨4, o, f, s⟩ g)) := by
+  rw [read_write_canon arc _ g h]
   simp only [canon, dropDims, sridOut, dropDims_canonG4 d g.g h.1]
 
 /-- the property's sentence, for every configuration -/
 def C09_full : Prop :=
-  ∀ (c : Cfg) (g : Geom), Valid g → read (write c g) = .ok (docSpec c g)
+  ∀ (arc : ArcOracle) (c : Cfg) (g : Geom), Valid arc g → read arc (write c g) = .ok (docSpec c g)
 
 /-- **The property's sentence on plain inputs** (`_partial` form of `C09_full`): if the rings of every
 polygon / sections of every compound curve share their Z/M flags, empty (curve) polygons are the
 factory's, and sequences are canonical, the round trip returns the input with only the documented
 exceptions applied and exactly the excess ordinates dropped. -/
-theorem roundtrip_plain (c : Cfg) (g : Geom) (h : Valid g) (hp : Plain g.g = true) :
-    read (write c g) = .ok (docSpec c g) := by
-  rw [read_write_canon c g h]
+theorem roundtrip_plain (arc : ArcOracle) (c : Cfg) (g : Geom) (h : Valid arc g) (hp : Plain g.g = true) :
+    read arc (write c g) = .ok (docSpec c g) := by
+  rw [read_write_canon arc c g h]
   simp only [canon, docSpec, dropDims, canonG_plain c.dims g.g hp h.1]
 
 /-- … and with four output dimensions nothing at all is dropped: type tree, Z/M flags and every ordinate
 bit pattern are those of the input (modulo NaN/NaN point = empty point, ring object = line string). -/
-theorem roundtrip_plain_dim4 (o : Order) (f : Flavor) (s : Bool) (g : Geom) (h : Valid g)
+theorem roundtrip_plain_dim4 (arc : ArcOracle) (o : Order) (f : Flavor) (s : Bool) (g : Geom) (h : Valid arc g)
     (hp : Plain g.g = true) :
-    read (write ⟨4, o, f, s⟩ g) = .ok ⟨sridOut ⟨4, o, f, s⟩ g.srid, docG g.g⟩ := by
-  rw [roundtrip_plain _ g h hp]
+    read arc (write ⟨4, o, f, s⟩ g) = .ok ⟨sridOut ⟨4, o, f, s⟩ g.srid, docG g.g⟩ := by
+  rw [roundtrip_plain arc _ g h hp]
   simp only [docSpec, dropDims, dropDims4_docG g.g hp]
 
 /-- **The two byte orders encode the same value.** -/
-theorem write_order_agree (d : Nat) (f : Flavor) (s : Bool) (g : Geom) (h : Valid g) :
-    read (write ⟨d, .le, f, s⟩ g) = read (write ⟨d, .be, f, s⟩ g) := by
-  rw [read_write_canon _ g h, read_write_canon _ g h]
+theorem write_order_agree (arc : ArcOracle) (d : Nat) (f : Flavor) (s : Bool) (g : Geom) (h : Valid arc g) :
+    read arc (write ⟨d, .le, f, s⟩ g) = read arc (write ⟨d, .be, f, s⟩ g) := by
+  rw [read_write_canon arc _ g h, read_write_canon arc _ g h]
   rfl
 
 /-- **HEX** decoding inverts HEX encoding (for every byte string) … -/
@@ -94,14 +102,15 @@ theorem hex_roundtrip (bs : List UInt8) : hexDecode (hexEncode bs) = some bs :=
   hexDecode_hexEncode bs
 
 /-- … hence HEX and binary encode the same value (no hypothesis on the geometry). -/
-theorem readHex_writeHex (c : Cfg) (g : Geom) : readHex (writeHex c g) = read (write c g) := by
+theorem readHex_writeHex (arc : ArcOracle) (c : Cfg) (g : Geom) :
+    readHex arc (writeHex c g) = read arc (write c g) := by
   simp [readHex, writeHex, hexDecode_hexEncode]
 
 /-- **Re-writing a re-read geometry reproduces the same bytes**, provided every point with NaN X and Y
 is the canonical all-NaN coordinate (what the writer itself emits for POINT EMPTY). -/
-theorem rewrite_fixpoint (c : Cfg) (g g' : Geom) (h : Valid g) (hn : NanPtCanon g.g = true)
-    (hr : read (write c g) = .ok g') : write c g' = write c g := by
-  rw [read_write_canon c g h] at hr
+theorem rewrite_fixpoint (arc : ArcOracle) (c : Cfg) (g g' : Geom) (h : Valid arc g) (hn : NanPtCanon g.g = true)
+    (hr : read arc (write c g) = .ok g') : write c g' = write c g := by
+  rw [read_write_canon arc c g h] at hr
   cases hr
   exact write_canon c g h.1 hn
 
@@ -120,14 +129,14 @@ def firstHoleHasZ (g : Geom) : Bool :=
   | .polygon _ (h :: _) => h.hasZ
   | _ => false
 
-theorem mixedPolygon_valid : Valid mixedPolygon := by decide
+theorem mixedPolygon_valid (arc : ArcOracle) : Valid arc mixedPolygon := ⟨by rfl, by rfl, by rfl⟩
 
 /-- **The property's sentence is false of the code**: the XY hole of `mixedPolygon` comes back as XYZ
 (with NaN Z), with four output dimensions, in every flavour / byte order. -/
 theorem C09_full_false : ¬ C09_full := by
   intro h
-  have h1 := h ⟨4, .le, .ext, false⟩ mixedPolygon mixedPolygon_valid
-  rw [read_write_canon _ _ mixedPolygon_valid] at h1
+  have h1 := h (fun _ => false) ⟨4, .le, .ext, false⟩ mixedPolygon (mixedPolygon_valid _)
+  rw [read_write_canon _ _ _ (mixedPolygon_valid _)] at h1
   have h2 : firstHoleHasZ (canon ⟨4, .le, .ext, false⟩ mixedPolygon)
       = firstHoleHasZ (docSpec ⟨4, .le, .ext, false⟩ mixedPolygon) := by
     injection h1 with h1; rw [h1]
@@ -139,10 +148,11 @@ def nanPoint : Geom := ⟨0, .point ⟨true, false, [⟨nanBits, nanBits, 0x4014
 
 /-- **`rewrite_fixpoint` needs its hypothesis**: the NaN/NaN point is read back as POINT Z EMPTY, and
 re-writing that gives `NaN NaN NaN`, not `NaN NaN 5`. -/
-theorem rewrite_fixpoint_needs_hyp :
-    ∃ (c : Cfg) (g g' : Geom), Valid g ∧ read (write c g) = .ok g' ∧ write c g' ≠ write c g := by
-  refine ⟨⟨4, .le, .ext, false⟩, nanPoint, canon ⟨4, .le, .ext, false⟩ nanPoint, by decide, ?_, by decide⟩
-  exact read_write_canon _ _ (by decide)
+theorem rewrite_fixpoint_needs_hyp (arc : ArcOracle) :
+    ∃ (c : Cfg) (g g' : Geom), Valid arc g ∧ read arc (write c g) = .ok g' ∧ write c g' ≠ write c g := by
+  have hv : Valid arc nanPoint := ⟨by rfl, by rfl, by rfl⟩
+  exact ⟨⟨4, .le, .ext, false⟩, nanPoint, canon ⟨4, .le, .ext, false⟩ nanPoint, hv,
+    read_write_canon arc _ _ hv, by decide⟩
 
 /-- COMPOUNDCURVE (EMPTY): a compound curve whose only section is an empty line string (accepted by
 the constructor) -/
@@ -150,10 +160,10 @@ def emptySectionCurve : Geom := ⟨0, .compoundCurve [.lineString ⟨false, fals
 
 /-- **`Fits`' "no empty section" is necessary**: the writer's bytes for `emptySectionCurve` (18 bytes) are
 *rejected* by the reader — `minMemSize` wants 16 bytes per section but an empty section has 9. -/
-theorem compound_empty_section_unreadable :
-    WFG emptySectionCurve.g = true ∧
-    ∀ (o : Order) (f : Flavor) (s : Bool), read (write ⟨4, o, f, s⟩ emptySectionCurve) = .error .tooSmall := by
-  refine ⟨by decide, ?_⟩
+theorem compound_empty_section_unreadable (arc : ArcOracle) :
+    WFG arc emptySectionCurve.g = true ∧
+    ∀ (o : Order) (f : Flavor) (s : Bool), read arc (write ⟨4, o, f, s⟩ emptySectionCurve) = .error .tooSmall := by
+  refine ⟨by rfl, ?_⟩
   intro o f s
   cases o <;> cases f <;> cases s <;> rfl
 
@@ -178,7 +188,10 @@ def sample : Geom :=
     .multiSurface [.curvePolygon [.linearRing ⟨true, false, [⟨0, 0, 0, nanBits⟩, ⟨0x3ff0000000000000, 0, 0, nanBits⟩, ⟨0, 0x3ff0000000000000, 0, nanBits⟩, ⟨0, 0, 0, nanBits⟩]⟩]],
     .collection [.multiPoint [.point ⟨true, false, [⟨nanBits, nanBits, nanBits, nanBits⟩]⟩], .multiLineString [], .multiPolygon []]]⟩
 
-example : Valid sample := by decide
+/-- the oracle under which no arc envelope computation throws -/
+def arc0 : ArcOracle := fun _ => false
+
+example : Valid arc0 sample := by decide
 example : Plain sample.g = true := by decide
 example : NanPtCanon sample.g = true := by decide
 /-- the hypotheses are satisfiable together and the conclusions are not trivial: the encoding has 690
@@ -187,9 +200,9 @@ type word's position only), yet both read back to the same value by `write_order
 example : (write ⟨4, .le, .ext, true⟩ sample).length = 690 := by decide +kernel
 example : (write ⟨4, .le, .ext, true⟩ sample).take 9 = [1, 7, 0, 0, 0xa0, 0xe6, 0x10, 0, 0] := by decide +kernel
 example : (write ⟨4, .be, .ext, true⟩ sample).take 9 = [0, 0xa0, 0, 0, 7, 0, 0, 0x10, 0xe6] := by decide +kernel
-example : read (write ⟨4, .be, .iso, true⟩ sample) = .ok (docSpec ⟨4, .be, .iso, true⟩ sample) :=
-  roundtrip_plain _ _ (by decide) (by decide)
+example : read arc0 (write ⟨4, .be, .iso, true⟩ sample) = .ok (docSpec ⟨4, .be, .iso, true⟩ sample) :=
+  roundtrip_plain arc0 _ _ (by decide) (by decide)
 /-- the mixed-dimension polygon satisfies the hypotheses of `read_write_id` but is not plain -/
-example : Valid mixedPolygon ∧ Plain mixedPolygon.g = false := by decide
+example : Valid arc0 mixedPolygon ∧ Plain mixedPolygon.g = false := by decide
 
 end GeosModel.C09
